@@ -1,6 +1,7 @@
 package rules
 
 import (
+	"os"
 	"fmt"
 	"go/ast"
 	"go/token"
@@ -822,6 +823,60 @@ func ruleCloneComplete(c *eng.Ctx) {
 			default:
 				c.Ok(R, key, pos, "copied")
 			}
+		}
+		// a copy into a slice made with length 0 copies nothing: the field is fresh but empty
+		nCopy := 0
+		for _, ci := range eng.Calls(fn, false, func(n string, _ ssa.CallInstruction) bool { return n == "builtin:copy" }) {
+			dst := ci.Common().Args[0]
+			empty, other := false, false
+			for w := range eng.Slice(dst, nil) {
+				switch x := w.(type) {
+				case *ssa.MakeSlice:
+					if k, isC := eng.ConstInt(x.Len); isC && k == 0 {
+						empty = true
+					} else {
+						other = true
+					}
+				case *ssa.Call:
+					if eng.CalleeName(x) == "builtin:append" {
+						other = true
+					}
+				case *ssa.Slice:
+					if x.High != nil {
+						other = true // re-sliced up to a length
+					}
+				}
+			}
+			// the destination read back from the field it was just stored in
+			if ld, ok := dst.(*ssa.UnOp); ok && !empty {
+				if fa, ok := ld.X.(*ssa.FieldAddr); ok {
+					for _, r := range *fa.X.Referrers() {
+						fa2, ok := r.(*ssa.FieldAddr)
+						if !ok || fa2.Field != fa.Field {
+							continue
+						}
+						for _, rr := range *fa2.Referrers() {
+							if st, ok := rr.(*ssa.Store); ok && st.Addr == ssa.Value(fa2) {
+								if mk, ok := st.Val.(*ssa.MakeSlice); ok {
+									if k, isC := eng.ConstInt(mk.Len); isC && k == 0 {
+										empty = true
+									} else {
+										other = true
+									}
+								} else {
+									other = true
+								}
+							}
+						}
+					}
+				}
+			}
+			nCopy++
+			key := fmt.Sprintf("%s#copy%d", sp.fn, nCopy)
+			if os.Getenv("VDEBUG") == "copy" {
+				fmt.Fprintf(os.Stderr, "COPY %s empty=%v other=%v dst=%s\n", key, empty, other, dst)
+			}
+			c.Check(!(empty && !other), R, key, ci.Pos(), "the destination has room for the copied elements", "copy into a slice made with length 0 copies nothing: the derived value starts with an empty "+"selection although the source had one")
 		}
 	}
 }
